@@ -137,6 +137,7 @@ def _dfs(n):
         yield from _dfs(c)
 
 
+_NONNULL_RESULTS = [set()]            # names of the module's functions whose return annotation is a class (not Optional / None)
 _MUTABLE_ATTRS = [set(), False]       # (attributes written outside __init__ or mutated in place, computed?) for the module at hand
 
 
@@ -1163,6 +1164,13 @@ class _Norm(ast.NodeTransformer):
         import copy
         t = nx.test
         neg = False
+        residual = None
+        if isinstance(t, ast.BoolOp) and isinstance(t.op, ast.Or) and len(t.values) >= 2 and isinstance(t.values[0], ast.Compare) \
+                and len(t.values[0].ops) == 1 and isinstance(t.values[0].ops[0], ast.Is) and isinstance(t.values[0].left, ast.Name) \
+                and isinstance(t.values[0].comparators[0], ast.Constant) and t.values[0].comparators[0].value is None and not nx.orelse:
+            # `if v is None or REST: S`: a leaf that binds None takes S, a leaf that binds an object is left with `if REST: S`
+            residual = t.values[1] if len(t.values) == 2 else ast.BoolOp(ast.Or(), list(t.values[1:]))
+            t = t.values[0]
         if isinstance(t, ast.UnaryOp) and isinstance(t.op, ast.Not):
             t, neg = t.operand, True
         if isinstance(t, ast.Name):
@@ -1193,7 +1201,9 @@ class _Norm(ast.NodeTransformer):
                 return True, e.value
             never_none = isinstance(e, (ast.JoinedStr, ast.Tuple, ast.List, ast.Dict, ast.Set, ast.ListComp, ast.DictComp, ast.SetComp)) or (
                 isinstance(e, ast.Call) and isinstance(e.func, ast.Attribute) and e.func.attr in ('format', 'join')
-                and isinstance(e.func.value, ast.Constant) and isinstance(e.func.value.value, str))
+                and isinstance(e.func.value, ast.Constant) and isinstance(e.func.value.value, str)) or (
+                # a method of this module whose declared result is an object, never None (`def get_attribute(..) -> Node`)
+                isinstance(e, ast.Call) and isinstance(e.func, ast.Attribute) and e.func.attr in _NONNULL_RESULTS[0])
             if never_none and isinstance(t, ast.Compare) and t.comparators[0].value is None and isinstance(t.ops[0], (ast.Is, ast.IsNot)):
                 return True, nonnull
             return False, None
@@ -1217,6 +1227,8 @@ class _Norm(ast.NodeTransformer):
                             arm.extend(new)
                         else:
                             arm[-1:] = new
+                    elif residual is not None:
+                        arm.append(ast.copy_location(ast.If(copy.deepcopy(residual), [copy.deepcopy(b) for b in nx.body], []), nx))
                 else:
                     total[0] = False
         leaves(s)
@@ -1742,8 +1754,22 @@ def unroll_display_loops(tree: ast.Module) -> ast.Module:
     return tree
 
 
+def _compute_nonnull_results(tree: ast.Module):
+    out, seen_other = set(), set()
+    for fn in [n for n in ast.walk(tree) if isinstance(n, ast.FunctionDef)]:
+        r = fn.returns
+        plain = isinstance(r, (ast.Name, ast.Attribute)) and ast.unparse(r) not in ('None', 'Any', 'object') or (
+            isinstance(r, ast.Constant) and isinstance(r.value, str) and r.value not in ('None',) and 'Optional' not in r.value)
+        if plain and ast.unparse(r).strip("'") in ('Node', 'UnknownNode', 'yaml.Node'):
+            out.add(fn.name)
+        else:
+            seen_other.add(fn.name)
+    _NONNULL_RESULTS[0] = out - seen_other
+
+
 def normalize(tree: ast.Module, ext=None) -> ast.Module:
     _compute_mutable_attrs(tree)
+    _compute_nonnull_results(tree)
     tree = propagate_module_constants(tree, ext)
     from .normalize2 import pre_normalize
     tree = pre_normalize(tree)
